@@ -135,7 +135,7 @@ TReset ==
 
 TSkip ==
     /\ IsEvent({"keys", "clock", "mark", "skip", "drop", "dup", "swap", "mod", "trunc", "inject", "injectrec", "forge",
-                "replay", "reflect", "hsedit", "dropall"})
+                "replay", "reflect", "hsedit", "dropall", "pad"})
     /\ UNCHANGED <<sentB, rxB, peerOf, rdead, used, lastSeq, prng>>
 
 TraceInit ==
